@@ -12,13 +12,13 @@
 //   A worker that dies leaves the last "B" line as attribution.
 
 use noulith::{
-    cell_borrow, evaluate, initialize, parse, to_key, verif_hooks, Env, Func,
+    cell_borrow, evaluate, freeze, initialize, parse, to_key, verif_hooks, Env, FreezeEnv, Func,
     NErr, Obj, Rc, RefCell, TopEnv, WriteMaybeExtractable,
 };
 use serde_json::{json, Map, Value};
 use std::alloc::{GlobalAlloc, Layout, System};
 use std::cell::RefCell as StdRefCell;
-use std::collections::HashMap;
+use std::collections::{HashMap, HashSet};
 use std::hash::{Hash, Hasher};
 use std::io::{self, BufRead, Write};
 use std::panic::{self, AssertUnwindSafe};
@@ -237,7 +237,27 @@ struct Outcome {
     injected: bool,
 }
 
+// Script pipeline: the command-line interpreter does not evaluate what `parse` returns; it first
+// runs the static pass `warn` (= `freeze` with `warn: true`) over the whole script, which resolves
+// every free variable that is not declared by the script itself to its current value and folds
+// some constants, and evaluates the result.  With `pipeline: "script"` (job field, or environment
+// variable NLMON_PIPELINE=script) every source of a job goes through the same pass, with one
+// set of bound names carried from statement to statement exactly as the pass carries it through a
+// sequence of statements.
+static SCRIPT_MODE: AtomicBool = AtomicBool::new(false);
+
 fn run_src(env: &REnv, src: &str, lim: &Limits, fail_at: u64, want_value: bool) -> Outcome {
+    run_src_b(env, src, lim, fail_at, want_value, None)
+}
+
+fn run_src_b(
+    env: &REnv,
+    src: &str,
+    lim: &Limits,
+    fail_at: u64,
+    want_value: bool,
+    bound: Option<&mut HashSet<String>>,
+) -> Outcome {
     let mut oc = Outcome {
         o: "ok",
         v: Value::Null,
@@ -266,6 +286,33 @@ fn run_src(env: &REnv, src: &str, lim: &Limits, fail_at: u64, want_value: bool) 
             return oc;
         }
         Ok(Ok(Some(e))) => e,
+    };
+    let expr = match bound {
+        Some(b) if SCRIPT_MODE.load(Ordering::Relaxed) => {
+            let mut frenv = FreezeEnv {
+                bound: std::mem::take(b),
+                env: Rc::clone(env),
+                warn: true,
+            };
+            verif_hooks::reset(lim.fuel, lim.max_depth, 0);
+            let fr = panic::catch_unwind(AssertUnwindSafe(|| freeze(&mut frenv, &expr)));
+            *b = frenv.bound;
+            match fr {
+                Err(_) => {
+                    oc.o = "panic";
+                    oc.panic = Some(take_panic("warn"));
+                    return oc;
+                }
+                // main.rs: panic!("ERROR: expr warn failed: {}")
+                Ok(Err(e)) => {
+                    oc.o = "panic";
+                    oc.panic = Some(json!({"msg": limit(format!("expr warn failed: {}", e)), "loc": "src/lib.rs:warn", "phase": "warn"}));
+                    return oc;
+                }
+                Ok(Ok(e2)) => e2,
+            }
+        }
+        _ => expr,
     };
     verif_hooks::reset(lim.fuel, lim.max_depth, fail_at);
     let res = panic::catch_unwind(AssertUnwindSafe(|| evaluate(env, &expr)));
@@ -499,36 +546,47 @@ fn job_eval(job: &Value, id: &str, w: &mut impl Write) -> Value {
     let mut n_events = 0usize;
     let mut prelude_err = Value::Null;
 
-    let setup = |out: &OutBuf, perr: &mut Value| -> REnv {
+    match job.get("pipeline").and_then(|v| v.as_str()) {
+        Some("script") => SCRIPT_MODE.store(true, Ordering::Relaxed),
+        Some(_) => SCRIPT_MODE.store(false, Ordering::Relaxed),
+        None => SCRIPT_MODE.store(
+            std::env::var("NLMON_PIPELINE").map(|v| v == "script").unwrap_or(false),
+            Ordering::Relaxed,
+        ),
+    }
+    let setup = |out: &OutBuf, perr: &mut Value| -> (REnv, HashSet<String>) {
         let env = fresh_env(out);
+        let mut bound = HashSet::new();
         for p in &prelude {
-            let oc = run_src(&env, p, &lim, 0, false);
+            let oc = run_src_b(&env, p, &lim, 0, false, Some(&mut bound));
             if oc.o != "ok" && oc.o != "empty" {
                 *perr = json!({"src": p, "o": oc.o, "err": oc.err, "panic": oc.panic});
             }
         }
         out.take();
-        env
+        (env, bound)
     };
 
-    let mut env = setup(&out, &mut prelude_err);
+    let (mut env, mut bound) = setup(&out, &mut prelude_err);
     let mut base = env.clone();
+    let mut base_bound = bound.clone();
     let mut need_rebase = false;
     for (i, s) in stmts.iter().enumerate() {
         wa(w, id, i);
         if fresh_each && !child_each && i > 0 {
-            env = setup(&out, &mut prelude_err);
+            (env, bound) = setup(&out, &mut prelude_err);
         }
         if child_each {
             if need_rebase || (i > 0 && i % rebase_every == 0) {
-                base = setup(&out, &mut prelude_err);
+                (base, base_bound) = setup(&out, &mut prelude_err);
                 need_rebase = false;
             }
             env = Env::with_parent(&base);
+            bound = base_bound.clone();
         }
         CANON_TROUBLE.with(|c| *c.borrow_mut() = None);
         let a0 = alloc_snap();
-        let oc = run_src(&env, s, &lim, if i == fail_stmt { fail_n } else { 0 }, want_value);
+        let oc = run_src_b(&env, s, &lim, if i == fail_stmt { fail_n } else { 0 }, want_value, Some(&mut bound));
         let a1 = alloc_snap();
         let panicked = oc.o == "panic";
         let mut m = Map::new();
@@ -553,7 +611,8 @@ fn job_eval(job: &Value, id: &str, w: &mut impl Write) -> Value {
         if !probes.is_empty() {
             let mut pr = Vec::new();
             for p in &probes {
-                let oc = run_src(&env, p, &lim, 0, true);
+                let mut pb = bound.clone();
+                let oc = run_src_b(&env, p, &lim, 0, true, Some(&mut pb));
                 let mut pm = Map::new();
                 outcome_to_map(oc, &mut pm);
                 pm.remove("ticks");
